@@ -847,7 +847,7 @@ class QueryBuilder(Selectable, Term):  # type:ignore[misc]
             return " DO NOTHING"
         elif len(self._on_conflict_do_updates) > 0:
             updates = []
-            value_ctx = ctx.copy(with_namespace=True)
+            value_ctx = ctx.copy(with_namespace=True, subquery=True)  # a sub-query value is parenthesised
             for field, value in self._on_conflict_do_updates:
                 if value:
                     updates.append(
